@@ -25,6 +25,11 @@
 //!     definitions are rejected by the pre-linter's site, subprogram ones by the converter's) against
 //!     `declarePre` / `declareConv`; whole scenarios against `preLint` / `convert`; uses with every
 //!     suffix against `useRef`; `STRING * c` against `stringLength`.
+//! (c) the statement-level theorems' tie (`core_pair`): per scenario a core-language program (PRINT, assignment,
+//!     IF, SELECT CASE, WHILE, DO, FOR) using global constants, as named text and as inlined text laid out with
+//!     identical positions; both go through the real parser and linter, the driver evaluates
+//!     `ConstProg.matchP` on the two linted trees (`const.inlprog`) and `Ref.run` on the named one; the real
+//!     interpreter must give the same for both texts (error positions included).
 //! (b) implementation vs property, through `run_in_memory`: the named program (CONST lines, uses by
 //!     name) against the inlined program (every use of an accepted constant whose stored value is the
 //!     folded one replaced by `(e)`, recursively; a constant with a converting suffix is compared with
@@ -1229,6 +1234,7 @@ fn main() {
         whole_scenario(&mut rep, &mut asks, &sc);
         uses(&mut rep, &mut asks, &sc, &mut rng);
         metamorphic(&mut rep, &sc);
+        core_pair(&mut rep, &mut asks, &sc);
     }
 
     // ask the model
@@ -1581,4 +1587,129 @@ fn metamorphic(rep: &mut Report, sc: &Scenario) {
             });
         }
     }
+}
+
+/// The linted tree of a core program as the Lean driver reads it. `Statement::Const` stays in the linted
+/// program but generates no instructions (`instruction_generator/statement.rs`): it is dropped here, as the
+/// core language of `RbModel.Ast` has no such statement.
+fn core_ast_without_const(text: &str) -> Option<String> {
+    let t = text.to_owned();
+    catch_unwind(move || {
+        let p = parse_main_str(t).ok()?;
+        let (linted, _ctx) = lint(p).ok()?;
+        let kept: Program =
+            linted.into_iter().filter(|gs| !matches!(gs.element, GlobalStatement::Statement(Statement::Const(_)))).collect();
+        rb_harness::ast_sx::program(&kept)
+    })
+    .ok()
+    .flatten()
+}
+
+/// The statement-level theorem's tie (`const_inline_exec` / `const_inline_run`): a core-language program
+/// (assignment, PRINT, IF, SELECT CASE, WHILE, DO, FOR) that uses global constants, in two layouts with
+/// identical positions — uses by name, padded with blanks, and uses replaced by `(e)` — goes through the
+/// real parser and linter; the two linted trees must match (`ConstProg.matchP`, evaluated by the driver:
+/// the literal a use became against the reference semantics' value of the parenthesised expression), the
+/// reference semantics must give for the named program what the real interpreter gives, and the real
+/// interpreter must give the same for both programs, positions of errors included.
+fn core_pair(rep: &mut Report, asks: &mut Vec<Ask>, sc: &Scenario) {
+    let cands: Vec<(usize, &Decl)> = sc
+        .decls
+        .iter()
+        .enumerate()
+        .filter(|(_, d)| d.scope == Scope::Global && inlineable(d, &sc.decls) && d.inl_len <= 90)
+        .collect();
+    let nums: Vec<&(usize, &Decl)> = cands.iter().filter(|(_, d)| !matches!(d.value(), Some(Variant::VString(_)))).collect();
+    let strs: Vec<&(usize, &Decl)> = cands.iter().filter(|(_, d)| matches!(d.value(), Some(Variant::VString(_)))).collect();
+    if nums.is_empty() {
+        return;
+    }
+    let mut texts = vec![];
+    for mode in [Mode::Named, Mode::Inlined] {
+        // the use of a constant, both layouts equally long
+        let u = |c: &(usize, &Decl)| -> String {
+            let (i, d) = *c;
+            let named = match (i % 2 == 0, d.value().and_then(tag_of)) {
+                (true, Some(q)) => format!("{}{}", d.name, ty_char(q)),
+                _ => d.name.clone(),
+            };
+            let inl = format!("({})", render(&d.expr, Mode::Inlined, &sc.decls));
+            let w = named.len().max(inl.len());
+            format!("{:w$}", if mode == Mode::Named { named } else { inl }, w = w)
+        };
+        let n = |k: usize| u(nums[k % nums.len()]);
+        let mut t = String::new();
+        for d in sc.accepted(Scope::Global) {
+            t.push_str(&format!("CONST {} = {}\n", d.decl_name(), render(&d.expr, Mode::Named, &sc.decls)));
+        }
+        t.push_str(&format!("PRINT {} ; {} , {} * 2\n", n(0), n(1), n(2)));
+        if let Some(sd) = strs.first() {
+            t.push_str(&format!("T$ = {} + \"x\"\nPRINT T$; {}\nIF {} < \"b\" THEN\nPRINT \"lt\"\nEND IF\n", u(sd), u(sd), u(sd)));
+        }
+        t.push_str(&format!("IF {} > 1 THEN\nPRINT \"y\"\nELSE\nPRINT -{}\nEND IF\n", n(0), n(1)));
+        t.push_str(&format!(
+            "SELECT CASE {}\nCASE {}\nPRINT \"a\"\nCASE IS > {}\nPRINT \"b\"\nCASE {} TO {}\nPRINT \"c\"\nCASE ELSE\nPRINT \"d\"\nEND SELECT\n",
+            n(1), n(2), n(0), n(0), n(1)
+        ));
+        t.push_str(&format!("WHILE X% < 2\nX% = X% + 1\nD# = {} * X%\nPRINT D#\nWEND\n", n(2)));
+        t.push_str(&format!("DO\nY% = Y% + 1\nLOOP UNTIL Y% >= 2 OR {} = {}\n", n(0), n(1)));
+        t.push_str(&format!("FOR I% = 1 TO 2\nS! = S! + {}\nNEXT\nPRINT S!\n", n(1)));
+        t.push_str(&format!("FOR J! = {} * 0 TO {} * 0 + 2 STEP {} * 0 + 1\nPRINT J!\nNEXT\n", n(0), n(0), n(2)));
+        t.push_str(&format!("L& = {}\nPRINT L&\nA% = {} + 1\nPRINT A%\n", n(0), n(1)));
+        texts.push(t);
+    }
+    rep.case(Some(texts[0].clone()));
+    rep.bump("core-pair.programs");
+    let on = rb_harness::refrun::run_real(&texts[0], b"", 2_000_000);
+    let oi = rb_harness::refrun::run_real(&texts[1], b"", 2_000_000);
+    if on.outcome == "budget" || oi.outcome == "budget" {
+        rep.bump("core-pair.budget-exhausted");
+    } else if on != oi {
+        rep.fail(Failure {
+            kind: Kind::ImplVsProperty,
+            signature: "inlprog:run".into(),
+            input: format!("[named program]\n{}\n[inlined program]\n{}", texts[0], texts[1]),
+            implementation: format!("named: {} {:?}", on.outcome, String::from_utf8_lossy(&on.out)),
+            expected: format!("inlined: {} {:?}", oi.outcome, String::from_utf8_lossy(&oi.out)),
+            note: "same statements, same positions; uses of constants by name vs replaced by (e)".into(),
+        });
+    }
+    let (an, ai) = (core_ast_without_const(&texts[0]), core_ast_without_const(&texts[1]));
+    let (Some(an), Some(ai)) = (an, ai) else {
+        rep.bump("core-pair.outside-core-or-rejected");
+        return;
+    };
+    let input = format!("[named program]\n{}\n[inlined program]\n{}", texts[0], texts[1]);
+    asks.push(Ask {
+        request: format!("(const.inlprog {} {})", an, ai),
+        expect: Box::new(|a| if a == "t" || a == "inexact" { None } else { Some(("the linted trees match".to_owned(), a.to_owned())) }),
+        signature: "inlprog:match".into(),
+        input: input.clone(),
+    });
+    // the reference semantics on the named program = the real run (C01's tie, on these programs)
+    let want = on.clone();
+    // how PRINT writes floats of 8+ significant digits is C16's / C01's subject (the reference semantics prints
+    // the exact decimal): with such constants around only the outcome (kind, code, position) is compared
+    let big_float = nums.iter().any(|(_, d)| match d.value() {
+        Some(Variant::VSingle(f)) => f.abs() >= 8388608.0 || (f.fract() != 0.0 && f.abs() >= 100.0),
+        Some(Variant::VDouble(f)) => f.abs() >= 8388608.0 || (f.fract() != 0.0 && f.abs() >= 100.0),
+        Some(Variant::VLong(l)) => l.abs() >= 8388608,
+        _ => false,
+    });
+    asks.push(Ask {
+        request: format!("(ref.run 20000 {})", an),
+        expect: Box::new(move |a| match rb_harness::refrun::parse_ref_answer(a) {
+            None => Some((format!("{} {:?}", want.outcome, String::from_utf8_lossy(&want.out)), a.to_owned())),
+            Some((o, _, _)) if o == "inexact" => None,
+            Some((o, out, _)) => {
+                if o == want.outcome && (big_float || out == want.out) {
+                    None
+                } else {
+                    Some((format!("{} {:?}", want.outcome, String::from_utf8_lossy(&want.out)), format!("{} {:?}", o, String::from_utf8_lossy(&out))))
+                }
+            }
+        }),
+        signature: "inlprog:ref".into(),
+        input,
+    });
 }
